@@ -356,6 +356,39 @@ def inject(case, fault, rng):
     return None
 
 
+def badkey_cases(rng, tier):
+    """malformed-argument stream for the derivative mutators: keys that are not strings (int, tuple, None, bytes,
+    float) on fresh objects of every class and on shared class constants"""
+    import c19_run
+    out = []
+    for cls in CLS:
+        numer = numers(cls)[0]
+        kind = 'bool' if cls == 'Boolean' else 'float'
+        derivs = {'t': {'denom': []}} if CLS[cls][4] else {}
+        variants = [({'cls': cls, 'kind': kind, 'shape': sh, 'numer': numer, 'denom': [], 'units': None, 'ro': ro,
+                      'mask': 'F', 'derivs': derivs}, None) for sh in ([], [3]) for ro in (False, True)]
+        consts = c19_run.class_constants(cls)
+        variants += [({'cls': cls, 'kind': kind, 'shape': [], 'numer': numer, 'denom': [], 'units': None, 'ro': True,
+                       'mask': 'F', 'derivs': {}}, c) for c in (consts if tier == 'thorough' else consts[:2])]
+        for t, const in variants:
+            for meth in ('insert_deriv', 'insert_derivs', 'insert_derivs2', 'with_deriv', 'rename_deriv', 'delete_deriv'):
+                if const and meth == 'rename_deriv':
+                    continue
+                for kk in ('int', 'tuple', 'none', 'bytes', 'float'):
+                    if tier != 'thorough' and rng.random() < 0.4:
+                        continue
+                    dcls = 'Scalar' if cls == 'Boolean' else cls
+                    arg = q(dcls, 'float', t['shape'], numer, [], None, {})
+                    c = {'mut': 'badkey', 'meth': meth, 'keykind': kk, 'target': t, 'arg': arg, 'faults': ['type'],
+                         'vseed': rng.randrange(1000)}
+                    if const:
+                        c['const'] = const
+                    if meth == 'with_deriv':
+                        c['method'] = rng.choice(['insert', 'replace', 'add'])
+                    out.append(c)
+    return out
+
+
 def gen(rng, tier):
     """all cases: valid ones, every single fault, pairs of faults.  quick: a stratified sample of targets per mutator
     (every class with and without derivatives is always present); thorough: every target"""
@@ -410,4 +443,5 @@ def gen(rng, tier):
                     if c is not None:
                         c['faults'] = [f, g]
                         cases.append(c)
+    cases += badkey_cases(rng, tier)
     return cases
